@@ -241,6 +241,15 @@ func (r *Run) eval(e *Env, x *SX) *Val {
 			return &Val{K: KPtr, Ty: types.NewPointer(et), P: p}
 		}
 		return r.load(e.st, p)
+	case "elemarr":
+		v := r.eval(e, args[0])
+		if v.K != KSlice {
+			r.toolErr("%s: elemarr of non-slice in %s", e.ctx, x)
+			return opaque("0")
+		}
+		et := v.Ty.Underlying().(*types.Slice).Elem()
+		srt := scalarSort(et)
+		return opaque(app("select", r.heapArr(e.st, sliceArrayName(et, ""), "(Array Int "+srt+")"), v.Ref))
 	case "local":
 		if e.fr == nil {
 			r.toolErr("%s: (local ...) outside a function body: %s", e.ctx, x)
